@@ -132,6 +132,9 @@ pub struct FdtTx {
     pub fec: u8,
     pub cenc: u8,
     pub has_sct: bool,
+    /// RaptorQ: number of sub-blocks N and symbol alignment Al announced in EXT_FTI
+    pub rq_n: u32,
+    pub rq_al: u32,
     /// reassembled transfer-encoded bytes when every source symbol is present
     pub raw: Option<Vec<u8>>,
     pub xml: Option<Vec<u8>>,
@@ -188,7 +191,22 @@ pub fn fdt_transmissions(pkts: &[Emitted]) -> Vec<FdtTx> {
     let mut out: Vec<FdtTx> = Vec::new();
     let mut cur: Option<(FdtTx, BTreeMap<(u32, u32), Vec<u8>>)> = None;
     let finish = |c: (FdtTx, BTreeMap<(u32, u32), Vec<u8>>), out: &mut Vec<FdtTx>| {
-        let (mut tx, syms) = c;
+        let (mut tx, mut syms) = c;
+        if tx.fec == wire::FEC_RAPTORQ && tx.rq_n > 1 {
+            // RaptorQ sub-blocking (RFC 6330 s4.4.1.2): rebuild the contiguous symbols of every complete block
+            let sizes = wire::rq_subsymbol_sizes(tx.e as usize, tx.rq_n as usize, tx.rq_al as usize);
+            let ks = block_ks(tx.b, tx.transfer_length, tx.e);
+            for (sbn, k) in ks.iter().enumerate() {
+                let block: Vec<Option<&Vec<u8>>> = (0..*k).map(|esi| syms.get(&(sbn as u32, esi as u32))).collect();
+                if block.iter().all(|s| s.map(|x| x.len() as u64 == tx.e).unwrap_or(false)) {
+                    let symbols: Vec<Vec<u8>> = block.iter().map(|s| (*s.unwrap()).clone()).collect();
+                    let plain = wire::rq_deinterleave(&symbols, &sizes);
+                    for (m, c) in plain.chunks(tx.e as usize).enumerate() {
+                        syms.insert((sbn as u32, m as u32), c.to_vec());
+                    }
+                }
+            }
+        }
         match reassemble(&syms, tx.b, tx.transfer_length, tx.e) {
             Ok(raw) => {
                 match cenc_of(tx.cenc).ok_or_else(|| "bad cenc".to_string()).and_then(|c| inflate(c, &raw)) {
@@ -252,6 +270,8 @@ pub fn fdt_transmissions(pkts: &[Emitted]) -> Vec<FdtTx> {
                     fec: fti.fec,
                     cenc: p.dec.cenc.unwrap_or(0),
                     has_sct: p.dec.sct.is_some(),
+                    rq_n: fti.n.unwrap_or(1),
+                    rq_al: fti.al.unwrap_or(1),
                     raw: None,
                     xml: None,
                     doc: None,
